@@ -356,6 +356,8 @@ func c06(c *Ctx) {
 	}
 	r.Floor("C06.limit-owner", 1)
 	// the running sum is touched only by the frame parser and by NextReader's per-message reset
+	r.Rule("C06.control-frames-readable", "a message within the limit can be read in full whatever control frames of legal size are interleaved: the read buffer always holds a whole control payload (same rule as C08.read-buffer)")
+	c08readBufferAs(c, rd, "C06.control-frames-readable")
 	r.Rule("C06.error-reaches-reader", "ErrReadLimit reaches whoever reads the message: every Read method layered over the message reader passes inner errors other than io.EOF on (same rule as C05.reader-wrappers)")
 	if c.readerWrappers("C06.error-reaches-reader") < 4 {
 		r.Fail("C06.error-reaches-reader", "package", "floor", c.fn("(*joinReader).Read").Pos(), "fewer than the 4 known reader wrappers were analysed")
